@@ -22,6 +22,7 @@ P("C11",
                "port names are mapped injectively to numbers by the harness (the model only compares names)",
                "callbacks do not re-enter the port (the stubs only log); calls are sequential (the port mutex is not modelled beyond 'left locked by a panic')",
                "hooks (HookPosPortMsg*) and SaveCheckpoint/LoadCheckpoint are not part of this model (checkpointing is C07)"],
+  quick_shards=8,
   trusted=["modelled, not verified: messaging/port.go (CanSend, Send, CanDeliver, Deliver, RetrieveIncoming, RetrieveOutgoing, "
            "PeekIncoming, PeekOutgoing, NumIncoming, NumOutgoing, NotifyAvailable, NewPort, msgMustBeValid) over queueing/buffer.go (C14 model)"],
   )
